@@ -1,0 +1,119 @@
+package onepass
+
+import "github.com/coregx/coregex/nfa"
+
+// hasUnsupportedLook reports whether the NFA contains a look-around assertion
+// that the one-pass DFA cannot honor.
+//
+// The DFA has no way to evaluate an assertion while it searches: the builder
+// follows look states like epsilon transitions and only relies on two facts
+// that hold for every search, because a search is anchored at the start of the
+// input and end anchors are only trusted once the input is consumed:
+//
+//   - a start anchor (^, \A) holds at position 0, i.e. as long as no byte has
+//     been consumed yet;
+//   - an end anchor (\z, and $ without the m flag) holds at the end of input,
+//     where no further byte can be consumed.
+//
+// Everything else depends on the bytes around the current position: word
+// boundaries (\b, \B), the multi-line end anchor ((?m)$, which also holds in
+// front of a '\n'), a start anchor that can be reached after consuming input
+// (e.g. `(a)^(b)`, `(^a)+`), and an end anchor that still has to consume input
+// afterwards (e.g. `(a)$(b)`). Patterns using these are rejected, which makes
+// the callers fall back to an engine that evaluates assertions.
+func hasUnsupportedLook(n *nfa.NFA) bool {
+	// States reachable from the anchored start, and the targets of all byte
+	// transitions among them (the states that can be active after consuming input).
+	var looks, afterByte []nfa.StateID
+	reachable := reachableStates(n, []nfa.StateID{n.StartAnchored()})
+	for id := range reachable {
+		state := n.State(id)
+		switch state.Kind() {
+		case nfa.StateLook:
+			looks = append(looks, id)
+		case nfa.StateByteRange, nfa.StateSparse, nfa.StateRuneAny, nfa.StateRuneAnyNotNL:
+			afterByte = append(afterByte, successors(state)...)
+		}
+	}
+	if len(looks) == 0 {
+		return false
+	}
+	consumed := reachableStates(n, afterByte)
+
+	for _, id := range looks {
+		look, next := n.State(id).Look()
+		switch look {
+		case nfa.LookStartText, nfa.LookStartLine:
+			// Only known to hold at position 0.
+			if consumed[id] {
+				return true
+			}
+		case nfa.LookEndText:
+			// Only known to hold when no input is left: nothing behind the
+			// anchor may consume a byte.
+			for after := range reachableStates(n, []nfa.StateID{next}) {
+				switch n.State(after).Kind() {
+				case nfa.StateByteRange, nfa.StateSparse, nfa.StateRuneAny, nfa.StateRuneAnyNotNL:
+					return true
+				}
+			}
+		default:
+			// \b, \B, (?m)$ depend on the surrounding bytes.
+			return true
+		}
+	}
+	return false
+}
+
+// reachableStates returns the set of NFA states reachable from the given roots
+// through any kind of transition (epsilon or byte-consuming).
+func reachableStates(n *nfa.NFA, roots []nfa.StateID) map[nfa.StateID]bool {
+	seen := make(map[nfa.StateID]bool)
+	stack := append([]nfa.StateID(nil), roots...)
+	for len(stack) > 0 {
+		id := stack[len(stack)-1]
+		stack = stack[:len(stack)-1]
+		if id == nfa.InvalidState || seen[id] {
+			continue
+		}
+		state := n.State(id)
+		if state == nil {
+			continue
+		}
+		seen[id] = true
+		stack = append(stack, successors(state)...)
+	}
+	return seen
+}
+
+// successors returns the states directly reachable from the given NFA state.
+func successors(state *nfa.State) []nfa.StateID {
+	switch state.Kind() {
+	case nfa.StateByteRange:
+		_, _, next := state.ByteRange()
+		return []nfa.StateID{next}
+	case nfa.StateSparse:
+		trans := state.Transitions()
+		out := make([]nfa.StateID, len(trans))
+		for i, t := range trans {
+			out[i] = t.Next
+		}
+		return out
+	case nfa.StateSplit:
+		left, right := state.Split()
+		return []nfa.StateID{left, right}
+	case nfa.StateEpsilon:
+		return []nfa.StateID{state.Epsilon()}
+	case nfa.StateCapture:
+		_, _, next := state.Capture()
+		return []nfa.StateID{next}
+	case nfa.StateLook:
+		_, next := state.Look()
+		return []nfa.StateID{next}
+	case nfa.StateRuneAny:
+		return []nfa.StateID{state.RuneAny()}
+	case nfa.StateRuneAnyNotNL:
+		return []nfa.StateID{state.RuneAnyNotNL()}
+	}
+	return nil
+}
